@@ -45,6 +45,20 @@ def oracle(cases, impl):
             if out in ("owner-mismatch", "misplaced-key"):
                 fails.append(dict(name="owner-" + cid, case=dict(keys=c[2], impl=out),
                                   what="a key is stored or dispatched outside the partition its hash selects: " + out))
+        elif kind == "P":
+            fl = c[2].split(",") if c[2] else []
+            pairs = list(zip(fl[0::2], fl[1::2]))
+            last = {}
+            for k, v in pairs:
+                last[k] = v
+            want = "%d %s" % (len(pairs), ",".join("%s=%s" % (k, last[k]) for k in sorted(last, key=lambda h: unh(h))))
+            if out != want:
+                fails.append(dict(name="plset-" + cid, case=dict(pairs=c[2], impl=out, single_store=want),
+                                  what="pipelined SETs merged into PLSET: replies or stored values differ from the single-store result, or a key is stored outside its partition"))
+        elif kind == "R":
+            if out not in ("ok", "rejected"):
+                fails.append(dict(name="route-" + cid, case=dict(key=c[3], impl=out),
+                                  what="a command for a partition not hosted here was executed elsewhere (or acknowledged without effect): " + out))
         elif kind == "D":
             st = set(c[2].split(",")) if c[2] else set()
             ks = c[3].split(",") if c[3] else []
@@ -129,7 +143,7 @@ def run(ctx):
             hist_all[k] = hist_all.get(k, 0) + v
         for cid, c in cases.items():
             # non-trivial: non-empty key and pnum > 1 for hashes, key list with >= 2 keys for merges
-            if (c[0] == "H" and c[1] != "-" and c[2] not in ("0", "1")) or (c[0] in ("G", "D") and "," in c[-1]) or c[0] == "X":
+            if (c[0] == "H" and c[1] != "-" and c[2] not in ("0", "1")) or (c[0] in ("G", "D", "P") and "," in c[-1]) or c[0] in ("X", "R"):
                 distinct.add(vlib.case_hash("\t".join(c)))
         ids = list(cases.keys())
         for cid in ids[:2] + ids[-2:]:
@@ -158,7 +172,8 @@ def run(ctx):
         distinct_nontrivial=len(distinct),
         rule="cases from one seeded PRNG: H = (key, partition count) with keys of length 0..40 incl. all tail lengths and high bytes, "
              "counts 1..1024 (4 keys exhaustively over all counts); X = raw keys for namespace extraction (valid and malformed); "
-             "G/D = merged DEL/EXISTS on a live 4-partition in-process server with duplicate-laden key lists. "
+             "G/D = merged DEL/EXISTS on a live 4-partition in-process server with duplicate-laden key lists; P = pipelined SETs merged into PLSET across partitions; "
+             "R = SET routed to a namespace whose partition 3 is not hosted (must be rejected, never executed elsewhere). "
              "Non-trivial = non-empty key with count > 1, any X, or a merge with >= 2 keys; distinct by hash of the case.",
         histogram=hist_all,
         mismatches=len(all_mism),
